@@ -23,6 +23,7 @@ ASSUMPTIONS = ["lexical's non-lossy float parser is correctly rounded; dashu par
 
 def run(ctx, R):
     F = ctx.facts()
+    digit_group_rule(F, R)
     R.rule("RF4/RF9 float parser configuration; RF3 integer fallback; RF9 radix table; RF1 shared reader and formatter")
     lexer_fns = sorted(p for p, it in F.items.items() if it["file"] == "src/parser/lexer.rs" and it["kind"] in ("Fn", "AssocFn"))
     R.floor("lexer functions", len(lexer_fns), 30)
@@ -183,3 +184,24 @@ def run(ctx, R):
     R.ob("C16:fmt_float:dot-zero-inserted-iff-mantissa-has-no-dot", all(ins),
          "fmt_float inserts \".0\" before the exponent under a condition that does not look for a '.' in the mantissa: a test on the position of 'e' forgets the sign, "
          "so -1e16 is written for -1.0e16 — text that does not read back as a number", F.where(ff))
+
+
+def digit_group_rule(F, R):
+    """number_chars/2, number_codes/2 read a number with the lexer's number scanner and, unlike the reader, accept the
+    end of the text as the end of the number (try_nt! turns an end-of-input error inside the scanner into "the digits so
+    far"). After a digit-group separator `_` that is wrong: a digit has to follow. skip_underscore_in_number must turn
+    the end of the input after `_` into a syntax error itself instead of propagating it."""
+    fn = [p for p, it in F.items.items() if it["file"] == "src/parser/lexer.rs" and p.endswith("::skip_underscore_in_number")]
+    if len(fn) != 1:
+        raise AnchorLost("Lexer::skip_underscore_in_number (%d)" % len(fn))
+    body = F.hir(fn[0])["body"]
+    br = [n for n in walk(body) if n["k"] == "If" and any(x["k"] == "Lit" and (x.get("lit") or {}).get("char") == "_" for x in walk(n["cond"]))]
+    if len(br) != 1:
+        raise AnchorLost("skip_underscore_in_number: the `c == '_'` branch (%d)" % len(br))
+    then = br[0]["then"]
+    propagated = [m["ln"] for m in walk(then) if m["k"] == "Match" and str(m.get("src", "")).startswith("TryDesugar")
+                  and any(x["k"] == "MethodCall" and x["name"] in ("lookahead_char", "scan_for_layout") for x in walk(m["scrut"]))]
+    handles = any(x["k"] == "MethodCall" and x["name"] == "is_unexpected_eof" for x in walk(then))
+    R.ob("C16:digit-group:end-of-input-after-separator-is-an-error", not propagated and handles,
+         "skip_underscore_in_number propagates the end of the input met after a `_` (lines %s): the number scanner's caller takes that for the end of the number, so "
+         "number_chars(X, '1_') gives 1 where the reader raises a syntax error for 1_" % propagated, F.where(fn[0]))
